@@ -392,6 +392,9 @@ pub fn check_case(rep: &mut Report, p: &Ivs, seed: u64, thorough: bool) {
 }
 
 pub fn run(p: &Params, rep: &mut Report) {
+    if p.shard == 3 {
+        super::ladder::discrete_partitions(rep, "C11", p.seed);
+    }
     let mut rng = p.rng(11);
     let n = p.size(6000, 80_000);
     for i in 0..n {
